@@ -170,6 +170,14 @@ fn eval_answer(c: &AnswerCase) -> Verdict {
     }
     let mut wire = vec![3u8];
     wire.extend_from_slice(&p1);
+    // in three cases of five the first bytes of the peer's packet 2 arrive in the same read as its
+    // packet 1 (packet 1 is the FIRST 1536 bytes after the version byte, whatever follows)
+    let extra = [0usize, 0, 1, 700, PACKET - 1][((c.fill >> 24) % 5) as usize];
+    if extra > 0 {
+        let mut more = vec![0u8; extra];
+        sha::prng_fill(c.fill ^ 0xE7, &mut more);
+        wire.extend_from_slice(&more);
+    }
     let cut = ((c.split as usize) * (wire.len() + 1)) >> 16;
     let pieces: Vec<&[u8]> = if cut == 0 || cut >= wire.len() { vec![&wire[..]] } else { vec![&wire[..cut], &wire[cut..]] };
     for piece in pieces {
